@@ -265,6 +265,41 @@ def run(tier, seed, budget):
         for f in res['findings']:
             rep.add_violation(Violation('C05', f['cls'], f['detail'], f['features'] + ['shape:' + f['shape']],
                                         {'kind': 'c05-schedule', **f['replay']}))
+    if not q:
+        # auxiliary: the same free-running workloads under ThreadSanitizer (data-race reports are evidence, the verdict stays with the
+        # behavioural oracle: the property is behavioural)
+        try:
+            import glob, re, shutil
+            tsan = common.build('wsrv', 'debug', flavor='tsan')
+            logdir = os.path.join(common.scratch_root(), 'tsanlog')
+            os.makedirs(logdir, exist_ok=True)
+            os.environ['TSAN_OPTIONS'] = 'halt_on_error=0:exitcode=0:log_path=%s/t' % logdir
+            tt = [{'binary': tsan, 'seed': seed, 'idx': 5000 + i, 'shape': sh, 'n_sched': 60, 'per_prog': 10, 'per_prog_random': 6, 'wall': 300, 'free': True,
+                   'physical': False} for i, sh in enumerate(SHAPES) if sh[2] != 'dfs']
+            n_t = 0
+            for t, res in pmap(worker, tt, jobs=8, budget_s=budget):
+                if isinstance(res, Exception):
+                    continue
+                n_t += res['schedules']
+                for f in res['findings']:
+                    rep.add_violation(Violation('C05', f['cls'], f['detail'], f['features'] + ['shape:' + f['shape'], 'build:tsan'], {'kind': 'c05-schedule', **f['replay']}))
+            os.environ.pop('TSAN_OPTIONS', None)
+            blocks = {}
+            for lf in glob.glob(logdir + '/t*'):
+                txt = open(lf, errors='replace').read()
+                for blk in txt.split('==================')[1:]:
+                    if 'ThreadSanitizer' not in blk:
+                        continue
+                    kind = re.search(r'WARNING: ThreadSanitizer: ([^\(\n]+)', blk)
+                    frames = tuple(m.group(1) for m in re.finditer(r'#\d+ (\S+) .*?/repo/src/', blk))[:2]
+                    key = ((kind.group(1).strip() if kind else '?'),) + frames
+                    blocks[key] = blocks.get(key, 0) + 1
+            rep.count('tsan_free_running_schedules', n_t)
+            rep.extra['aux_tsan_reports'] = [{'kind': k[0], 'first_repo_frames': list(k[1:]), 'count': v} for k, v in sorted(blocks.items(), key=lambda x: -x[1])]
+            for k, v in blocks.items():
+                print('AUX-TSAN property=C05 %s at %s (%d reports) - auxiliary, not a verdict' % (k[0], ' <- '.join(k[1:]), v))
+        except common.BuildError as e:
+            rep.extra['aux_tsan_reports'] = 'TSan build failed: %s' % e
     return rep.finish()
 
 def replay(path):
